@@ -26,10 +26,12 @@ def main():
     na_reasons = json.load(open(na_path)) if os.path.exists(na_path) else {}
     checks, na = [], []
     served = {}
+    # only checks that have been vetted on the unchanged tree are claimed
+    vetted = set(json.load(open(os.path.join(ROOT, "tools", "claimed.json"))))
     for p in props:
         pid = p["id"]
         path = os.path.join(ROOT, "checks", pid.lower() + ".py")
-        if not os.path.exists(path) or pid in na_reasons:
+        if not os.path.exists(path) or pid in na_reasons or pid not in vetted:
             na.append({"property_id": pid, "reason": na_reasons.get(pid, "no check has been built for this property yet; it is not claimed (design in DESIGN.md section 3)")})
             continue
         mod = importlib.import_module("checks." + pid.lower())
